@@ -10,6 +10,37 @@ T = "oq3_semantics::types::"
 SKIND = "oq3_syntax::ast::type_ext::ScalarTypeKind"
 
 
+
+FILTERING = ("::flatten", "::filter", "::filter_map", "::flat_map", "::take", "::skip", "::take_while", "::skip_while", "::step_by", "::dedup", "::retain", "::flatten>", "::find")
+
+
+def count_term_ok(prog, term, binder, depth=0):
+    """The recorded arity is the length of the bound parameter list: the term is 0, or mentions the result of
+    `binder(..)` under a length call with no filtering adaptor in between; a local helper function is looked into."""
+    from sym import term_contains_all
+    t = deep_strip(term)
+    if isinstance(t, tuple) and t[0] == "c" and t[2] == 0:
+        return True, "0"
+    calls = term_contains_all(t, lambda x: isinstance(x, tuple) and len(x) > 2 and x[0] in ("call", "pure") and isinstance(x[1], str))
+    names = [c[1] for c in calls]
+    if binder is not None and not any(n.endswith(binder) for n in names):
+        return False, f"does not mention {binder}"
+    filt = [n for n in names if n.endswith(FILTERING) or any(f + "<" in n for f in FILTERING)]
+    if filt:
+        return False, f"goes through {sorted(set(x.split('::')[-1] for x in filt))}: entries of the list are skipped before they are counted"
+    if any(n.endswith("::len") for n in names):
+        return True, "len"
+    # a helper of the analyser: its result must satisfy the same rule on its parameter
+    for c in calls:
+        hb = prog.body(c[1]) if c[1].startswith("oq3_semantics::") else None
+        if hb is not None and depth < 2 and not c[1].endswith(binder or "\0"):
+            rs = [deep_strip(p_.env.get(0)) for p_ in SymExec(prog, hb, max_visits=1, max_paths=200).paths() if "__diverged__" not in p_.env]
+            res = [count_term_ok(prog, r_, None, depth + 1) for r_ in rs]
+            if rs and all(o for o, _ in res):
+                return True, "helper " + c[1].split("::")[-1]
+            return False, f"helper {c[1].split('::')[-1]}: " + "; ".join(w for o, w in res if not o)[:160]
+    return False, "no length of the list"
+
 def run(prog, R):
     R.explanation = ("Type construction table of scalar_type_to_type (kind -> constructor with the designator's width and the caller's const flag; bit/qubit + width -> arrays), "
                      "const-ness provenance per caller, parameter types of gates/subroutines, absence of unchecked narrowing integer casts in the translator, the const side table is "
@@ -96,6 +127,12 @@ def run(prog, R):
                 nb = [c for c in p.calls if c[0].endswith("Context::new_binding")]
                 ty = deep_strip(nb[-1][1][2]) if nb else None
                 oka = ty is not None and ty[0] == "adt" and ty[1] == T + "Type::Gate" and ("angle_params" in show(ty[2][0]) or show(ty[2][0]) == "0") and "qubit_params" in show(ty[2][1]) and "len" in show(ty[2][1])
+                if oka:
+                    o1, w1 = count_term_ok(prog, ty[2][0], "bind_parameter_list")
+                    o2, w2 = count_term_ok(prog, ty[2][1], "bind_parameter_list")
+                    if not (o1 and o2):
+                        oka = False
+                        R.ob("C09.4-gate-arity", f"count:{len(seen)}", False, s2s.at, f"the recorded number of {'angle parameters' if not o1 else 'qubits'} is not the length of the bound list: {w1 if not o1 else w2} (`gate g(a, a) q {{}}` would be recorded with one parameter while its definition has two)")
                 R.ob("C09.4-gate-arity", f"Gate(#angle params, #qubit params):{len(seen)}", oka, s2s.at, f"{show(ty)[:160]}")
             if arm_of(prog, p, STMT_ENUM, "stmt") == "Def" and "__diverged__" not in p.env:
                 nb = [c for c in p.calls if c[0].endswith("Context::new_binding")]
@@ -104,9 +141,17 @@ def run(prog, R):
                     seen.add(("Def",))
                     s_ = show(ty)
                     ok = ty[0] == "adt" and ty[1] == T + "Type::SubroutineDef" and "typed_param_list" in s_ and ("return_signature" in s_ or "Type::Void" in s_)
-                    R.ob("C09.4-subroutine-signature", "SubroutineDef{num_params <- typed params, return_type <- return signature | Void}", ok, s2s.at, s_[:200])
+                    if ok:
+                        sd = deep_strip(ty[2][0]) if ty[2] else None
+                        npar = sd[2][0] if isinstance(sd, tuple) and sd[0] == "adt" and sd[2] else None
+                        o1, w1 = count_term_ok(prog, npar, "bind_typed_parameter_list") if npar is not None else (False, "num_params field not found")
+                        if not o1:
+                            ok = False
+                            s_ = f"num_params is not the length of the bound parameter list: {w1}; " + s_
+                    R.ob("C09.4-subroutine-signature", "SubroutineDef{num_params <- typed params, return_type <- return signature | Void}", ok, s2s.at, s_[:260])
     import C07
     C07.return_type_scope(prog, R, "C09.4-return-type-scope")
+    R.premises(prog, "C09.2-designator-lookup-premise", ["C19:C19.3-"], "an identifier used as a width or length is resolved by SymbolTable::lookup: the innermost visible binding (a shadowing const of another value must win)")
     R.premises(prog, "C09.5-scope-premise", ["C07:C07.1-", "C07:C07.2-"], "every declaration records its written type in the scope it is written in: each body (then / else / loop / case / default / gate / def) is translated in a scope of its own")
     R.premises(prog, "C09.2-literal-value-premise", ["C10:C10.2-", "C10:C10.3-", "C10:C10.4-digit-string"],
                "a literal width / register length reaches the symbol table through IntNumber::value(): its radix, digit string and sibling agreement are C10's obligations")
